@@ -1421,6 +1421,34 @@ pub fn fam_resolve(tier: Tier) -> Vec<Config> {
             }
         }
     }
+    // neighbours with equal own tags resolve independently: the tags a scenario inherits come
+    // from its own rule / feature, not from the scenario written before it
+    for (t1, t2) in [("retry(2)", ""), ("", "retry(2)"), ("retry(1)", "retry(3)"), ("x", "")] {
+        for b_filter in [None, Some("@x")] {
+            let mut c = base(String::new());
+            let rule = |t: &str| RuleSpec {
+                tags: if t.is_empty() { vec![] } else { vec![t.to_owned()] },
+                bg: vec![],
+                scenarios: vec![scen(&[], &[M])],
+            };
+            c.feats = vec![
+                FeatSpec { rules: vec![rule(t1), rule(t2)], ..Default::default() },
+                FeatSpec { tags: if t2.is_empty() { vec![] } else { vec![t2.to_owned()] }, scenarios: vec![scen(&[], &[M])], ..Default::default() },
+            ];
+            c.items = vec![Item::Feat(0), Item::Feat(1)];
+            c.conc_builder = Some(Some(1));
+            c.retries_builder = b_filter.map(|_| 1);
+            c.retry_filter_builder = b_filter.map(str::to_owned);
+            c.plan.gates = GateMode::None;
+            let infos = c.scen_infos();
+            for i in &infos {
+                c.plan.outcomes.insert(i.calls[0].key.clone(), vec![Outcome::PanicString]);
+            }
+            c.max_execs = 50;
+            c.name = format!("resolve/N|{t1}|{t2}|bf{b_filter:?}");
+            out.push(c);
+        }
+    }
     // "`--fail-fast` adds to the builder settings" on the parser-error path as well:
     // whichever side asked for it, no feature is ingested after a parser error
     for (ffb, ffc) in [(false, false), (true, false), (false, true), (true, true)] {
